@@ -51,11 +51,12 @@ Allowed(cls, asg) ==
     ELSE { OutcomeOf(cls, k) : k \in asg[Decider(cls, asg)] }
 
 \* ---- consequences of the definition, checked exhaustively in the design leg (reading check) --------
-\* changing any shadowed or ineligible source never changes what is allowed
+\* changing any shadowed or ineligible source never changes what is allowed.  Checked in the form
+\* "what is allowed is what is allowed after clearing every shadowed/ineligible source": two
+\* assignments that differ only in such sources have the same decider, hence the same cleared form.
 Shadowed(cls, asg, s) == (~Eligible(cls, s)) \/ (Setters(cls, asg) # {} /\ s < Decider(cls, asg))
-ShadowIndependence(cls, asg) ==
-    \A s \in Sources : Shadowed(cls, asg, s) =>
-        \A e \in Entries : Allowed(cls, [asg EXCEPT ![s] = e]) = Allowed(cls, asg)
+Cleared(cls, asg) == [s \in Sources |-> IF Shadowed(cls, asg, s) THEN {} ELSE asg[s]]
+ShadowIndependence(cls, asg) == Allowed(cls, asg) = Allowed(cls, Cleared(cls, asg))
 \* an unambiguous assignment has exactly one allowed outcome
 Unambiguous(asg) == \A s \in Sources : Cardinality(asg[s]) <= 1
 Functional(cls, asg) == Unambiguous(asg) => Cardinality(Allowed(cls, asg)) = 1
